@@ -265,8 +265,16 @@ theorem assert_self (hK : HConf K) (h : DInv s f) (he : s.enabled (f i) = true) 
     · simp [Assert]
   case th_ltrail v =>
     rw [hp] at a
-    simp only [step, Assert] at a ⊢
-    intro h' e; rw [armed_congr rfl]; exact a h' e
+    simp only [Assert] at a
+    by_cases c : (s.trailing.isSome || !K.tail || K.order == .leadAlways) = true
+    · simp only [step, c, if_true, Assert]
+      intro h' e; rw [armed_congr rfl]; exact a h' e
+    · simp only [step, c, Bool.false_eq_true, if_false, Assert]
+      refine ⟨by simp [St.spawn], ?_⟩
+      intro h' e
+      have e' : s.hcell = some h' := by simpa [St.spawn] using e
+      rw [spawn_armed_old _ _ _ _ (by simpa using h.dd.t4 h' e')]
+      exact (armed_congr (s := s) rfl h').trans (a h' e')
   case th_ldown v =>
     rw [hp] at a
     simp only [step, Assert] at a ⊢
